@@ -62,7 +62,7 @@ def pbExpm1 (e0 : K) (ybar x xbar : List K) : List K := amulS xbar ybar (expS e0
 def pbLog1p (ybar x xbar : List K) : List K := addS xbar (divS ybar (plusConstS x 1))
 /-- `_pb_logit`: `xbar += ybar * 1/(x - x²)` -/
 def pbLogit (ybar x xbar : List K) : List K := amulS xbar ybar (recipS (subS x (squareS x)))
-/-- `_pb_expit`: `b = 1/(exp x + 1)`, `xbar += ybar * (b - b²)` -/
+/-- `_pb_expit`: `b = 1/(exp x + 1)`, `xbar += ybar * (b - b²)` (the code evaluates `b - b²` as `b·c`, `c = 1/(1+exp(−x)) = 1 − b`) -/
 def pbExpit (e0 : K) (ybar x xbar : List K) : List K :=
   let b := recipS (plusConstS (expS e0 x) 1)
   amulS xbar ybar (subS b (squareS b))
